@@ -318,7 +318,7 @@ def leanchecker(modules, timeout=3000):
 MV_THEOREMS = {'conf_consts_eq', 'conf_up_eq', 'conf_homo_eq', 'conf_down_eq', 'g3c_translation_rotor_eq', 'g3c_dilation_rotor_eq',
                'g3c_apply_rotor_eq', 'g3c_rotor_between_planes_eq', 'cga_call_eq', 'cga_translation_eq', 'cga_round_eq',
                'classify_translate_eq', 'classify_blade_mv_eq', 'classify_tests_eq',
-               'g3c_point_pair_end_points_eq', 'g3c_sphere_center_eq', 'cga_dilation_eq', 'g3c_rotor_roots_eq', 'g3c_fast_eq'}
+               'g3c_point_pair_end_points_eq', 'g3c_sphere_center_eq', 'cga_dilation_eq', 'g3c_rotor_roots_eq', 'g3c_fast_eq', 'g3c_rot_radius_eq'}
 
 
 LOOP_THEOREMS = {'cre_eq', 'crs_eq', 'gmt_element_eq', 'construct_gmt_eq', 'construct_graded_mt_eq', 'tuple_as_sign_and_bitmap_eq'}
